@@ -1,23 +1,25 @@
 // C14: exporter background activity and lifecycle never corrupt the stream.
 //
 // A case is one exporter session of one of three kinds, 8 sessions run concurrently:
-//  refresh : UDP exporter with the minimum refresh interval (1 s) against a raw UDP peer;
-//            the application (one goroutine) sends templates, then paced data for > 4
-//            intervals. Every datagram must be exactly one well-formed message; application
-//            data must arrive unaltered and in order; every refresh copy of a template must
-//            equal the original; per-template refresh counts may differ by at most one
-//            (each round carries every template sent so far exactly once); sequence
-//            numbers must follow the running record count in capture order.
-//  peerclose: TCP exporter with CheckConnInterval 25 ms; the peer closes; after a silent
-//            wait the first SendSet must fail (three fresh attempts, wait doubled).
-//  close   : CloseConnToCollector from 1..8 goroutines, twice each, while the application
-//            goroutine is sending: must return, later SendSet must fail, the peer's stream
-//            must be the acknowledged sends plus at most a prefix of one failed send, and
-//            no exporter goroutine may remain.
+//
+//	refresh : UDP exporter with the minimum refresh interval (1 s) against a raw UDP peer;
+//	          the application (one goroutine) sends templates, then paced data for > 4
+//	          intervals. Every datagram must be exactly one well-formed message; application
+//	          data must arrive unaltered and in order; every refresh copy of a template must
+//	          equal the original; per-template refresh counts may differ by at most one
+//	          (each round carries every template sent so far exactly once); sequence
+//	          numbers must follow the running record count in capture order.
+//	peerclose: TCP exporter with CheckConnInterval 25 ms; the peer closes; after a silent
+//	          wait the first SendSet must fail (three fresh attempts, wait doubled).
+//	close   : CloseConnToCollector from 1..8 goroutines, twice each, while the application
+//	          goroutine is sending: must return, later SendSet must fail, the peer's stream
+//	          must be the acknowledged sends plus at most a prefix of one failed send, and
+//	          no exporter goroutine may remain.
 package main
 
 import (
 	"bytes"
+	"encoding/json"
 	"fmt"
 	"math/rand/v2"
 	"runtime/pprof"
@@ -26,10 +28,12 @@ import (
 	"time"
 
 	"github.com/vmware/go-ipfix/pkg/entities"
+	"github.com/vmware/go-ipfix/pkg/exporter"
 
 	"verif/harness/gen"
 	"verif/harness/hx"
 	"verif/harness/lib"
+	"verif/harness/peers"
 	"verif/harness/refipfix"
 	"verif/harness/regtable"
 )
@@ -46,7 +50,7 @@ func main() {
 		}
 	}
 	groups := c.Pick(1, 8)
-	kinds := []string{"refresh", "refresh", "refresh", "refresh", "peerclose", "peerclose", "close", "close"}
+	kinds := []string{"refresh", "refresh", "refresh", "jsonrefresh", "peerclose", "peerclose", "close", "close"}
 	from, to := c.Range(groups * len(kinds))
 	for g := from / len(kinds); g*len(kinds) < to; g++ {
 		var wg sync.WaitGroup
@@ -69,6 +73,9 @@ func main() {
 							c.Violation(k, "no-refresh", "no template was retransmitted during 4 and then 8 refresh intervals although the application's own sends progressed", nil)
 						}
 					}
+				case "jsonrefresh":
+					c.Eval(1)
+					jsonRefreshSession(c, k, r)
 				case "peerclose":
 					c.Eval(1)
 					peerCloseSession(c, k, r)
@@ -332,6 +339,77 @@ func refreshSession(c *hx.Ctx, k int, r *rand.Rand, dur time.Duration) string {
 	c.Sample(4, map[string]any{"kind": "refresh", "ipv6": v6, "templates": len(tmpls), "template_added_mid_run": added, "pacing": []string{"bursts", "0-2ms gaps", "mostly idle"}[pacing],
 		"application_sends": len(sends), "datagrams_captured": len(dgs), "refresh_copies_per_template": fmt.Sprint(refresh), "app_data_between_datagrams_of_one_round": between})
 	return ""
+}
+
+// jsonRefreshSession: an exporter in JSON mode over UDP with the minimum refresh interval.
+// The application's stream is one JSON document per record; templates are never
+// transmitted in this mode, so across several refresh ticks the peer must see exactly the
+// application's JSON documents, in order, and nothing else.
+func jsonRefreshSession(c *hx.Ctx, k int, r *rand.Rand) {
+	peer, err := peers.NewUDPPeer("udp", "127.0.0.1:0")
+	if err != nil {
+		c.Inconclusive("peer: " + err.Error())
+		return
+	}
+	defer peer.Close()
+	ep, err := exporter.InitExportingProcess(exporter.ExporterInput{CollectorAddress: peer.Addr(), CollectorProtocol: "udp", ObservationDomainID: r.Uint32(), TempRefTimeout: 1, SendJSONRecord: true})
+	if err != nil {
+		c.Inconclusive("session: " + err.Error())
+		return
+	}
+	defer ep.CloseConnToCollector()
+	t := tmpl{tid: ep.NewTemplateID(), elems: []regtable.Elem{lib.CustomElems[11], lib.CustomElems[8]}}
+	ts, _ := lib.TemplateSet(t.tid, t.elems, 0)
+	if _, err := ep.SendSet(ts); err != nil {
+		c.Violation(k, "send-error", "template (json mode): "+err.Error(), nil)
+		return
+	}
+	start := time.Now()
+	sent := 0
+	for time.Since(start) < 2400*time.Millisecond {
+		sent++
+		set := entities.NewSet(false)
+		rec := [][]byte{refipfix.PU(4, uint64(sent)), []byte(fmt.Sprintf("rec-%d", sent))}
+		if err := lib.FillDataSet(set, t.tid, t.elems, [][][]byte{rec}, nil); err != nil {
+			panic(err)
+		}
+		if _, err := ep.SendSet(set); err != nil {
+			c.Violation(k, "send-error", fmt.Sprintf("json data send %d: %v", sent, err), nil)
+			return
+		}
+		time.Sleep(time.Duration(2+r.IntN(30)) * time.Millisecond)
+	}
+	time.Sleep(30 * time.Millisecond)
+	dgs := peer.All()
+	next := 1
+	for i, dg := range dgs {
+		var doc struct {
+			IPFIX map[string]interface{} `json:"ipfix"`
+			TS    string                 `json:"@timestamp"`
+		}
+		if err := json.Unmarshal(dg.Data, &doc); err != nil || doc.IPFIX == nil {
+			c.Violation(k, "json-stream-corrupted", fmt.Sprintf("datagram %d of a JSON-mode exporter is not one of the application's JSON documents (%d bytes, starts %x): background work injected something into the stream", i, len(dg.Data), dg.Data[:min(len(dg.Data), 24)]), nil)
+			return
+		}
+		n, _ := doc.IPFIX["vfUnsigned32"].(float64)
+		if int(n) != next || doc.IPFIX["vfString"] != fmt.Sprintf("rec-%d", next) {
+			if int(n) > next {
+				c.Inconclusive(fmt.Sprintf("session %d: a JSON datagram was lost on loopback", k))
+				return
+			}
+			c.Violation(k, "json-stream-order", fmt.Sprintf("datagram %d carries record %v, expected %d", i, doc.IPFIX["vfUnsigned32"], next), nil)
+			return
+		}
+		next++
+	}
+	if next-1 != sent {
+		c.Inconclusive(fmt.Sprintf("session %d: %d of %d JSON datagrams arrived", k, next-1, sent))
+		return
+	}
+	c.Add("json_sessions", 1)
+	c.Add("json_datagrams", int64(len(dgs)))
+	c.Nontrivial(hx.H64("json", k, sent))
+	c.Sample(6, map[string]any{"kind": "jsonrefresh", "records_sent_as_json": sent, "datagrams_captured": len(dgs), "refresh_ticks_covered": 2})
 }
 
 func peerCloseSession(c *hx.Ctx, k int, r *rand.Rand) {
